@@ -322,7 +322,7 @@ class _Walker:
     def _comp(self, e, elts):
         for g in e.generators:
             it = self.expr(g.iter)
-            self.bind(g.target, self.load_from(it))
+            self.bind_iter(g.target, g.iter, it)
             for c in g.ifs:
                 self.expr(c)
         return self._display(e, elts)
@@ -564,6 +564,24 @@ class _Walker:
         else:
             self.sum.effects[key] = Effect(o, field, self.f.module, getattr(site, 'lineno', 0), self.f.qualname, text)
 
+    def bind_iter(self, target: ast.AST, it_expr: ast.AST, it: Set[Origin]) -> None:
+        """Loop target over an iterable.  `for a, b in zip(X, Y)` / `for i, a in enumerate(X)` with a target of the same
+        arity binds position by position (a gets the elements of X only); anything else the elements of the iterable."""
+        if isinstance(target, (ast.Tuple, ast.List)) and isinstance(it_expr, ast.Call) and isinstance(it_expr.func, ast.Name) \
+                and it_expr.func.id in ('zip', 'enumerate') and not it_expr.keywords \
+                and not any(isinstance(a, ast.Starred) for a in it_expr.args) \
+                and not any(isinstance(t, ast.Starred) for t in target.elts) \
+                and it_expr.func.id not in self.env:
+            if it_expr.func.id == 'zip' and len(target.elts) == len(it_expr.args):
+                for t, a in zip(target.elts, it_expr.args):
+                    self.bind(t, self.load_from(self.expr(a)))
+                return
+            if it_expr.func.id == 'enumerate' and len(target.elts) == 2 and len(it_expr.args) == 1:
+                self.bind(target.elts[0], {CONST})
+                self.bind(target.elts[1], self.load_from(self.expr(it_expr.args[0])))
+                return
+        self.bind(target, self.load_from(it))
+
     def bind(self, target: ast.AST, origins: Set[Origin]) -> None:
         if isinstance(target, ast.Name):
             if target.id in self.globals_declared:
@@ -640,7 +658,7 @@ class _Walker:
         elif isinstance(s, (ast.For, ast.AsyncFor)):
             it = self.expr(s.iter)
             for _ in range(2):
-                self.bind(s.target, self.load_from(it))
+                self.bind_iter(s.target, s.iter, it)
                 self.block(s.body)
             self.block(s.orelse)
         elif isinstance(s, ast.While):
